@@ -28,12 +28,16 @@ Scn == [irt : Irt, sirt : Sirt, dest : Dest, aud : Aud, recip : Recip, allow : B
         conv : BOOLEAN, regex : BOOLEAN, binding : Bind, enc : BOOLEAN, endpoint : {"configured", "otherBindingOnly"},
         \* a second bearer confirmation with the same window and InResponseTo whose Recipient is ours or somebody else's,
         \* placed before or after the first one
-        conf2 : {"absent", "own", "foreign"}, conf2first : BOOLEAN]
+        conf2 : {"absent", "own", "foreign"}, conf2first : BOOLEAN,
+        \* the application remembers the same came_from for both outstanding requests (same page in two tabs)
+        sameFrom : BOOLEAN]
 \* without an endpoint for the arrival binding only the addressing dimensions are varied
 WellFormed(s) == /\ s.endpoint = "otherBindingOnly" =>
                     /\ s.dest \in {"otherBinding", "patternOnly", "foreign", "none"} /\ s.recip \in {"otherBinding", "entityid", "foreign"}
                     /\ s.aud = "me" /\ ~s.enc /\ s.irt = "id1" /\ s.sirt = "id1"
                  /\ (s.conf2 = "absent" => ~s.conf2first)
+                 /\ (s.sameFrom => s.irt = "id1" /\ s.sirt \in {"id1", "id2"} /\ s.conf2 = "absent" /\ s.endpoint = "configured"
+                                   /\ s.aud = "me" /\ s.dest \in {"own", "none"} /\ ~s.regex)
                  /\ s.conf2 # "absent" => /\ s.endpoint = "configured" /\ s.aud = "me" /\ s.dest \in {"own", "none"} /\ ~s.regex
                                           /\ s.irt = "id1" /\ s.sirt = "id1"
 
